@@ -1,6 +1,6 @@
 (* C15 driver: runs the same operation lines as harness/C15/nametab.c on the
    extracted model and prints the same canonical text.
-   usage: driver <cfgbits>   (1 char 0/1: delalias -- repair C15-13, proposed but not yet in /repo)
+   usage: driver <cfgbits>   (2 chars 0/1: delalias dotparent -- repairs C15-13/14, proposed but not yet in /repo)
    extra output per step (lines starting with "i "): the model's invariant bits. *)
 open Model
 
@@ -87,9 +87,9 @@ let dump_match st =
 let b2 b = if b then 1 else 0
 
 let () =
-  let bits = if Array.length Sys.argv > 1 then Sys.argv.(1) else "0" in
+  let bits = if Array.length Sys.argv > 1 then Sys.argv.(1) else "00" in
   let g i = i < String.length bits && bits.[i] = '1' in
-  let cfg = g 0 in
+  let cfg = { fx_delalias = g 0; fx_dotparent = g 1 } in
   let st = ref init_state in
   try
     while true do
@@ -111,8 +111,9 @@ let () =
             | "H" -> OHide (name_of_string (tok t.(1)), t.(2) = "1")
             | "X" -> OAffix (n_of_int (int_of_string t.(1)), name_of_string (tok t.(2)), name_of_string (tok t.(3)))
             | "Q" -> OList (optok t.(1), n_of_int (int_of_string t.(2)), n_of_int (int_of_string t.(3)))
+            | "U" | "I" | "J" | "S" | "N" -> OAffix (n_of_int 0, [n_of_int 47], [])   (* not modelled: see below *)
             | _ -> failwith ("bad op " ^ t.(0)) in
-          let (st', r) = step cfg !st o in
+          let (st', r) = if List.mem t.(0) ["U"; "I"; "J"; "S"; "N"] then (!st, RUnmodelled) else step cfg !st o in
           (match r with
            | RInt z -> Printf.printf "> r %d\n" (int_of_z z)
            | RList l ->
